@@ -1297,12 +1297,14 @@ def rule_r4_table(ctx):
             mul = [p for p in parts if p.startswith("Mul(")]
             sym = [p for p in parts if not p.startswith("Mul(")]
             mm = re.fullmatch(r"Mul\((arg\d+(?:\.\w+)+), (arg\d+(?:\.\w+)+)\)", mul[0]) if len(mul) == 1 else None
-            ms = re.fullmatch(r"\(arg(\d+) as usize\)", sym[0]) if len(sym) == 1 else None
+            # the symbol widened to the index type: `symbol as usize`, or a lossless conversion call (usize::from(symbol) / symbol.into()),
+            # which the canonical term sees through (sa.flow TRANSPARENT_CALLS) - the argument's own type then gives the alphabet
+            ms = re.fullmatch(r"\(arg(\d+) as usize\)|arg(\d+)", sym[0]) if len(sym) == 1 else None
             if mm and ms:
                 fs = [re.fullmatch(r"arg1\.(\w+)", g) for g in mm.groups()]
-                st = [g for g in mm.groups() if re.fullmatch(r"arg[2-9]\.0", g) and g[3] != ms.group(1)]
+                sym_arg = int(ms.group(1) or ms.group(2))
+                st = [g for g in mm.groups() if re.fullmatch(r"arg[2-9]\.0", g) and int(g[3]) != sym_arg]
                 fs = [f.group(1) for f in fs if f]
-                sym_arg = int(ms.group(1))
                 if len(fs) == 1 and len(st) == 1 and 1 < sym_arg <= tr.arg_count and re.search(r"\bDFAState$", tr.local_ty(int(st[0][3]))):
                     stride_field = fs[0]
                     sym_ty = tr.local_ty(sym_arg)
